@@ -1,6 +1,7 @@
 """C05 — concrete-dependency functions yield a leaf trait any application can adopt."""
 from ..common import Report
 from ..corpus import load, load_repo_tests
+from ..crossgen import load_cross
 from ..model import ty_s
 from ..wrules import (is_mock_impl, FnModView, check_fnmod_delegation, entrait_depth, in_macro, is_impl_adt, pred_set)
 
@@ -10,6 +11,7 @@ def run(tier):
     configs = ["plain", "unimock_test"] if tier == "quick" else ["plain", "test", "unimock", "unimock_test"]
     programs = 0
     loaded = [(cfg, load(rep, "pos", cfg)) for cfg in configs]
+    loaded += [(cfg, load_cross(rep, cfg, tier)) for cfg in configs]
     if tier == "thorough":
         loaded.append(("unimock_test", load_repo_tests(rep)))
     for cfg, ld in loaded:
